@@ -343,8 +343,12 @@ class Gen:
             if hh.fields is None:
                 w1 = r.randrange(1, hh.rec_len)
                 w2 = hh.rec_len - w1
+                if r.random() < 0.4 and w2 > 1:
+                    # the FIELD list need not fill the record
+                    w2 = r.randrange(1, w2)
+                    self.features.add("field_list_narrower_than_record")
                 if r.random() < 0.1:
-                    self.step("FIELD #%d, %d AS Q%dA$, %d AS Q%dB$" % (n, w1, n, w2 + 1, n), err=50)
+                    self.step("FIELD #%d, %d AS Q%dA$, %d AS Q%dB$" % (n, w1, n, hh.rec_len - w1 + 1, n), err=50)
                     self.features.add("field_overflow")
                     return
                 hh.fields = [(w1, "Q%dA$" % n), (w2, "Q%dB$" % n)]
@@ -376,11 +380,13 @@ class Gen:
                 self.step(stmt)
                 self.features.add("put")
             else:
-                puts = [rec for rec in range(1, 5) if len(data) >= rec * hh.rec_len]
+                total = sum(w for w, _ in hh.fields)
+                puts = [rec for rec in range(1, 5) if len(data) >= (rec - 1) * hh.rec_len + total]
                 if not puts:
                     return
                 rec = r.choice(puts)
                 chunk = data[(rec - 1) * hh.rec_len: rec * hh.rec_len]
+                chunk += "\0" * (hh.rec_len - len(chunk))
                 pr = 'PRINT "G"; T%; ' + "; ".join('"["; %s; "]"' % v for w, v in hh.fields)
                 parts = []
                 o = 0
